@@ -191,23 +191,32 @@ func reasmCase(name string, ptr, stored []byte) string {
 	if p == nil {
 		return "bad-pointer"
 	}
-	// what the pointer and the format warrant: va_rawsize, but no more than 255 output bytes per stream byte (LZ4's
-	// length extension; pglz reaches 91, deflate - which PostgreSQL never uses here - is not granted anything)
-	warranted := 255 * len(stored)
-	if int(p.RawSize) < warranted {
-		warranted = int(p.RawSize)
-	}
+	// The envelope claimed for the three decompressors (remediation R10, REVIEW2 #1/#6): whatever raw size the pointer
+	// declares (the witnesses declare 0xFFFFFFFF), allocation <= 2*len(output) + 8*len(stored) + 1 MiB, i.e. the result
+	// is allocated about once (fixes/toast/22: size pass, then one allocation; before, append growth cost 5.5 times
+	// the output) plus the concatenation buffer of the chunks.  The output itself is bounded in the input only by the
+	// formats' ratios (below): that part of the amplification is inherent and stated in the claim.
 	var out []byte
-	res := withinBound(name, bound{0, float64(8*warranted + 64*len(stored) + 1<<20), 10000}, len(stored), func() {
+	alloc, ms := measure(func() {
 		out = pgdump.ReassembleTOAST([]pgdump.TOASTChunk{{ChunkID: p.ValueID, ChunkSeq: 0, Data: stored}}, p.ValueID, p)
 	})
-	if res != "ok" {
-		return res
+	if bigTrace {
+		fmt.Fprintf(os.Stderr, "TRACE reasm:%s in=%d out=%d alloc=%.0f (%.2f x out) ms=%.1f\n", name, len(stored), len(out), alloc, alloc/float64(len(out)+1), ms)
 	}
-	// Props.C10.Toast.C10_size_reassembleTOAST: never more than va_rawsize - 4 + the chunk bytes
+	if limit := float64(2*len(out) + 8*len(stored) + 1<<20); alloc > limit {
+		return fmt.Sprintf("RESOURCE-alloc:%s:%.0f-bytes-for-%d-input-%d-output-bytes(limit-%.0f)", name, alloc, len(stored), len(out), limit)
+	}
+	if ms > 10000 {
+		return fmt.Sprintf("RESOURCE-ms:%s:%.0f-for-%d-input-bytes", name, ms, len(stored))
+	}
+	// Props.C10.Toast.C10_size_reassembleTOAST: never more than 255 bytes per stored byte (LZ4's ratio; pglz reaches
+	// 91; the zlib fallback is cut at the same 255), and never more than va_rawsize - 4 + the chunk bytes
 	limit := len(stored)
 	if p.RawSize >= 4 {
 		limit += int(p.RawSize) - 4
+	}
+	if byInput := 255 * len(stored); byInput < limit {
+		limit = byInput
 	}
 	if len(out) > limit {
 		return fmt.Sprintf("RESOURCE-size:%s:%d-bytes-returned-limit-%d", name, len(out), limit)
